@@ -94,8 +94,14 @@ def classify1(src, venom, level, limit, phase="bytecode", files=None, evm=None):
         return {"outcome": "INTERNAL", "exc": type(e).__name__, "frame": innermost_vyper_frame(e.__traceback__), "msg": str(e)[:300],
                 "vyper_internal": True}
     except VyperException as e:
+        # a diagnostic is only user-facing if it can be RENDERED (hints are lazy callables evaluated by __str__)
+        try:
+            msg = str(e)[:160]
+        except Exception as e2:  # noqa
+            return {"outcome": "INTERNAL", "exc": type(e2).__name__, "frame": innermost_vyper_frame(e2.__traceback__),
+                    "msg": f"rendering the {type(e).__name__} diagnostic raised {type(e2).__name__}: {str(e2)[:120]}"}
         return {"outcome": "user", "exc": type(e).__name__, "loc": has_location(e), "frame": innermost_vyper_frame(e.__traceback__),
-                "msg": str(e)[:160]}
+                "msg": msg}
     except RecursionError as e:
         return {"outcome": "INTERNAL", "exc": "RecursionError", "frame": recursive_frame(e.__traceback__), "msg": ""}
     except Exception as e:  # raw python exception
